@@ -30,6 +30,9 @@ CHECKS = {
  'C14': dict(
    text='One-step cache argument: after a visit at an arbitrary earlier frequency every load impedance (all load kinds, both evaluation orders at a junction of two different wires) equals that of a fresh model, decided by z3 for all frequencies and parameters over uninterpreted Bessel/log/sqrt; frequency/compute histories against a fresh model with an uninterpreted matrix fill; set iteration order is a solver variable for the option/report writers. Three findings repaired.',
    design='DESIGN.md 3 (C14)'),
+ 'C15': dict(
+   text='main -> as_cmdline -> main on argument lists whose numeric fields (frequency, tags, complex voltages and loads, R/L/C, Laplace coefficients, conductivities, insulation, media constants, taper limits, transformation keys/vectors/scale) are solver variables; printf tokens fork on the sign so malformed text shows; z3 decides on every path that the written options are accepted and that the re-read model equals the first field by field to the printed precision. Bounded by the listed templates. Five findings repaired.',
+   design='DESIGN.md 3 (C15)'),
  'C16': dict(
    text='For all finite IEEE doubles start/increment in the stated ranges and each listed count, the table sizes are decided bit-precisely in QF_FP on the real grid construction and the point values under the standard model of floating-point arithmetic; far-field angle tables likewise.',
    design='DESIGN.md 3 (C16)',
